@@ -167,8 +167,9 @@ class Interp:
             raise Unsupported(f"cannot merge {type(a).__name__} and {type(b).__name__}")
 
     # ---------------------------------------------------------------- calls
-    def call(self, fn: Callable, *args: Any, **kwargs: Any) -> Any:
-        if not any(is_sym(a) or _has_sym(a) for a in list(args) + list(kwargs.values())):
+    def call(self, fn: Callable, *args: Any, _force: bool = False, **kwargs: Any) -> Any:
+        """_force=True: interpret symbolically even when no argument is itself a z3 term (objects carrying terms)."""
+        if not _force and not any(is_sym(a) or _has_sym(a) for a in list(args) + list(kwargs.values())):
             return fn(*args, **kwargs)
         try:
             src = textwrap.dedent(inspect.getsource(fn))
